@@ -196,6 +196,22 @@ def c05_pipeline(ctx, p):
         props_pipe.expect_identity(ctx, src, out, f"unexpired element removed (to={p['to']} offset={p['offset']} now={p['now']})", 'unexpired-removed')
 
 
+@harness('c05_sequence', covers=['second-call-differs-from-first'])
+def c05_sequence(ctx, p):
+    """the decision is a function of (to, offset, now) only: earlier evaluations with another configuration leave no trace"""
+    from templates import expired
+    to = p['to']
+    results = []
+    for off, now in p['calls']:
+        r = ctx.impl.is_removal(list(to.encode()), list(off.encode()), now)
+        want = expired(to, off, now)
+        results.append(want)
+        ctx.check(r is want or r == want, f'is_removal(to={to}, offset={off}, now={now}) = {r} after {len(results) - 1} earlier evaluation(s); expected {want}',
+                  'decision-depends-on-earlier-calls')
+    if len(set(results)) > 1:
+        ctx.cover('second-call-differs-from-first')
+
+
 def c05_jobs(tier, seed):
     import datetime
     jobs = []
@@ -211,6 +227,10 @@ def c05_jobs(tier, seed):
     for off in ('-09:00', '+14:00', '-1200', '+0530', '+05:45'):
         J('c05_decision', f'decision date symbolic in 2024-02, offset {off}', fixed={'Y': '2024', 'M': '02'}, offset=off, window=200000)
     J('c05_monotone', 'monotone: two instants, to and offset symbolic', colon=True)
+    t0 = 1704067200  # 2024-01-01T00:00:00Z
+    for calls in ([('+09:00', t0 - 3600), ('+00:00', t0 - 3600)], [('+00:00', t0 - 3600), ('+09:00', t0 - 3600)], [('-05:00', t0 + 3600), ('+09:00', t0 + 3600), ('-05:00', t0 + 3600)],
+                  [('JST', t0 + 10 ** 6), ('+09:00', t0 + 10 ** 6)], [('+09:00', t0 + 10 ** 6), ('JST', t0 + 10 ** 6)], [('+0900', t0 - 40000), ('+09:00', t0)]):
+        J('c05_sequence', f'sequence of evaluations {calls}', to='2024-01-01 00:00:00', calls=[list(c) for c in calls])
     for label, v in MALFORMED:
         J('c05_malformed', f'malformed to: {label}', kind='to', to=v)
     for pos in (4, 7, 10, 13, 16):
